@@ -1,15 +1,17 @@
 import SaVerif.Model.Expr
 import SaVerif.Model.ExprGrammar
 import SaVerif.Model.ExprEval
+import SaVerif.Lemmas.ExprCore
 import SaVerif.Drv.Parse
 /-!
 Sub-driver of M-EXPR.  One request per line:
 
 * `expr render <dialect> <U…>`  → `ok <type> <text>` | `error` (the API raises)
-* `expr parse <dialect> <U…>`   → `ok <wb> <same> <fullparen-text>` | `noparse <wb>` | `error`
-   where the text is the *backend grammar's* reading of the rendered tokens, fully
-   parenthesised, `wb` the well-bracketedness verdict and `same` whether the reading equals
-   the rendered tree.
+* `expr parse <dialect> <U…>`   → `ok <wb> <same> <core><wg><ok>` | `noparse <wb> <core><wg><ok>` | `error`
+   `wb` = the rendered tree is well bracketed up to re-association, `same` = the grammar's reading
+   of the text is that tree, `core`/`wg`/`ok` = the hypotheses / conclusion of the general theorem
+   (`Lemmas/ExprCore.lean`) evaluated on this element.
+* `expr parsedrop <mask> <dialect> <U…>` → `ok <text> <fullparen reading>` | `noparse <text>`
 
 `<U…>` is the prefix serialisation written by `harness/lib_expr.py:wire`.
 -/
@@ -231,9 +233,10 @@ def handle : List String → String
       | some e =>
         let t := render dl true e
         let g := grammarOf dl
+        let flags := b01 (Core e) ++ b01 (WG e) ++ b01 (ok g t)
         match parse g t.print with
-        | none => "noparse " ++ b01 (wb g t)
-        | some p => "ok " ++ b01 (wb g t) ++ " " ++ b01 (p == t) ++ " " ++ showStr p.fullParen.text
+        | none => "noparse " ++ b01 (wb g t.norm) ++ " " ++ flags
+        | some p => "ok " ++ b01 (wb g t.norm) ++ " " ++ b01 (p == t.norm) ++ " " ++ flags
     | _, _ => "bad-op"
   | "evalin" :: x :: n :: rest =>
     match parseLit? x, parseNat? n with
